@@ -10,6 +10,7 @@ import (
 	"encoding/json"
 	"fmt"
 
+	"github.com/LemoFoundationLtd/lemochain-core/chain/params"
 	"github.com/LemoFoundationLtd/lemochain-core/chain/types"
 	"github.com/LemoFoundationLtd/lemochain-core/common"
 	"github.com/LemoFoundationLtd/lemochain-core/common/rlp"
@@ -256,6 +257,9 @@ func scenario(c *run.Ctx, idx int, fixed bool) {
 		nDep = 5
 	}
 	wcfg := fx.WorldCfg{Deputies: nDep, Users: 4, SlotMs: uint64(1000 * r.Range(2, 5))}
+	if idx%4 == 3 && !fixed {
+		wcfg.DeputyCap = nDep + 3
+	}
 	w := fx.NewWorld(wcfg)
 	wcfg.GenesisTime, wcfg.SlotMs = w.GenesisTime, w.SlotMs
 	dir := fx.ScratchDir("c03")
@@ -280,11 +284,28 @@ func scenario(c *run.Ctx, idx int, fixed bool) {
 	if idx%4 == 1 {
 		prefixLen = scn.Term - r.Range(1, 3) // the tree will contain the snapshot block
 	}
+	// growth: users register as candidates in the first blocks, so that the term elected at the snapshot block has more
+	// deputies than the genesis term (a larger two-thirds threshold from the first block the new term signs); the block
+	// tree then lies in the new term
+	growth := 0
+	if idx%4 == 3 && !fixed {
+		growth = r.Range(1, 3)
+		prefixLen = scn.Term + scn.Interim + r.Range(1, 3)
+	}
 	for i := 0; i < prefixLen; i++ {
 		t := head.Time() + uint32(r.Range(1, int(2*slot)))
 		var txs types.Transactions
 		if i == 0 {
 			txs = types.Transactions{B.Transfer(w.Founder, w.Users[0].Addr, fx.LEMO(1000), uint64(t)+600)}
+			for j := 0; j < growth; j++ {
+				txs = append(txs, B.Transfer(w.Founder, w.Users[1+j].Addr, fx.LEMO(5000000), uint64(t)+601+uint64(j)))
+			}
+		}
+		if i == 1 {
+			for j := 0; j < growth; j++ {
+				k := w.Users[1+j]
+				txs = append(txs, B.Register(k, fx.Profile(k, k.Addr, true, "growth"), params.MinCandidateDeposit, uint64(t)+600+uint64(j)))
+			}
 		}
 		res, err := Bn.Mine(head, t, txs, "")
 		if err != nil {
@@ -301,6 +322,14 @@ func scenario(c *run.Ctx, idx int, fixed bool) {
 	}
 	m.stable = V.BC.StableBlock()
 	m.check("prefix")
+	if growth > 0 {
+		if got := V.DM.GetDeputiesCount(head.Height() + 1); got == nDep+growth {
+			c.Stat("scenarios_with_more_deputies_in_the_new_term", 1)
+			c.Seen("deputy_count_changes", fmt.Sprintf("%d->%d", nDep, got))
+		} else {
+			c.Stat("growth_not_effective", 1)
+		}
+	}
 	// block tree above the stable block, built on the builder node only
 	type node struct {
 		b     *types.Block
@@ -424,7 +453,7 @@ func scenario(c *run.Ctx, idx int, fixed bool) {
 		}
 		queue = again
 	}
-	shape := fmt.Sprintf("n%d self=%s prefix%d tree%d hostile=%v", nDep, selfKind, prefixLen, len(built), hostile)
+	shape := fmt.Sprintf("n%d+%d self=%s prefix%d tree%d hostile=%v", nDep, growth, selfKind, prefixLen, len(built), hostile)
 	siblings := false
 	for _, b := range built {
 		if sibOf(b) != nil {
